@@ -203,6 +203,24 @@ class VariantJob:
         flat_views = [c for vw in views for c in vw]
         flat_coords = [c for cs in coords for c in cs]
         scalar_result = self.returns in ([float], [bool])
+        try:
+            return self._run_case_symbolic(label, ctx, scal, sargs, views, flat_views, flat_coords, scalar_result, res)
+        except OutOfSubset as e:
+            # the function cannot be executed symbolically: its contract is undecided - unless the numeric refuter (the real function
+            # against the reference at seeded points of the case's precondition, results representable) exhibits a failing input
+            suffix = f"{{{label}}}" if label else ""
+            rng = random.Random(hash((SEED, self.base_id, label)) & 0xFFFFFFFF)
+            for env in self.sample_points(ctx, rng, max(NPOINTS, 16)):
+                res["refuter_points"] += 1
+                bad = self.refute_at(ctx, env, None, None, scalar_result, None, need_representable=True)
+                if bad is not None:
+                    bad["note"] = f"symbolic execution left the verifiable subset ({e}); found by the numeric refuter"
+                    res["obligations"].append(dict(id=f"{self.base_id}{suffix}/refuter", kind="refuter", status="refuted",
+                                                   by="numeric evaluation of the real function (mpmath 60 digits)", t=0, counterexample=bad))
+                    return "refuted"
+            raise
+
+    def _run_case_symbolic(self, label, ctx, scal, sargs, views, flat_views, flat_coords, scalar_result, res):
         if self.spec is not None:
             ref = self.spec(LIB, scal, views)
             if not scalar_result:
@@ -362,7 +380,7 @@ class VariantJob:
         vec = list(it)
         return args, vec
 
-    def refute_at(self, ctx, env, got, ref, scalar_result, res=None):
+    def refute_at(self, ctx, env, got, ref, scalar_result, res=None, need_representable=False):
         """run the real function and the reference on concrete numbers; returns a counterexample dict or None"""
         m = mp()
         try:
@@ -392,6 +410,13 @@ class VariantJob:
                 return None
             if not NL.finite(cmp_got) or not NL.finite(cmp_ref):
                 return None
+            if need_representable:
+                # numeric form of OPS.result_rep (used when the symbolic precondition could not be built)
+                needs_rho = oc[0] is AzimuthalRhoPhi or (len(oc) >= 2 and oc[1] in (LongitudinalTheta, LongitudinalEta))
+                if needs_rho and not (cmp_ref[0] ** 2 + cmp_ref[1] ** 2 > m.mpf(10) ** (-20)):
+                    return None
+                if len(oc) >= 3 and oc[2] is TemporalTau and not (cmp_ref[3] > m.mpf(10) ** (-20)):
+                    return None
             ok = all(numeric_equal(a, b) for a, b in zip(cmp_got, cmp_ref))
         # engine cross-check: the symbolic result evaluated at the point must agree with the real function
         if res is not None:
